@@ -11,6 +11,8 @@ RefS = z3.DeclareSort('Ref')        # callables / identity-carrying external obj
 
 NONEVAL = z3.Const('NoneVal', ValS)  # the value ``None`` when used as a default
 EVALIN = z3.Function('evalin', ValS, RefS, ValS)      # value of an annotation expression in a function's globals
+EVALIN_AT = z3.Function('evalin_at', ValS, RefS, z3.IntSort(), ValS)      # ... after the globals were rebound (epoch > 0): module globals are mutable
+EPOCH = [0]
 
 
 class Infeasible(Exception):
